@@ -31,8 +31,10 @@ func (c20timeout) Temporary() bool { return true }
 
 // symbols: F frame, P frame whose processing fails, A EAGAIN, T timeout, R ECONNRESET, U unknown,
 // E EOF, B EBADF, C closed file, X unexpected EOF, Y closed pipe, a wrapped EAGAIN, r wrapped ECONNRESET,
-// t a timeout net.Error that wraps another errno (net.OpError{Err: ETIMEDOUT})
-const c20Transient = "ATRart"
+// t a timeout net.Error that wraps another errno (net.OpError{Err: ETIMEDOUT}), w EWOULDBLOCK wrapped with %w;
+// frames whose PROCESSING fails with an error value that a read fault could also have: p io.ErrUnexpectedEOF,
+// q EAGAIN (a processing error is reported once and never stops or silences the receiver, whatever its value)
+const c20Transient = "ATRartw"
 const c20Terminal = "EBCXY"
 
 func c20err(sym byte, i int) error {
@@ -45,6 +47,8 @@ func c20err(sym byte, i int) error {
 		return c20timeout{}
 	case 't':
 		return &net.OpError{Op: "read", Net: "packet", Err: syscall.ETIMEDOUT}
+	case 'w':
+		return fmt.Errorf("read packet: %w", syscall.EWOULDBLOCK)
 	case 'R':
 		return syscall.ECONNRESET
 	case 'r':
@@ -93,7 +97,7 @@ func (e *c20env) ReadPacketData() ([]byte, *gopacket.CaptureInfo, error) {
 		e.reads++
 		sym := e.script[i]
 		vs.Observe("read", "%c%d", sym, i)
-		if sym == 'F' || sym == 'P' {
+		if sym == 'F' || sym == 'P' || sym == 'p' || sym == 'q' {
 			data = []byte{sym, byte(i)}
 			return
 		}
@@ -107,8 +111,13 @@ func (e *c20env) ReadPacketData() ([]byte, *gopacket.CaptureInfo, error) {
 
 func (e *c20env) ProcessPacketData(data []byte, _ *gopacket.CaptureInfo) error {
 	e.processed = append(e.processed, fmt.Sprintf("%c%d", data[0], data[1]))
-	if data[0] == 'P' {
+	switch data[0] {
+	case 'P':
 		return fmt.Errorf("process-%d", data[1])
+	case 'p':
+		return io.ErrUnexpectedEOF
+	case 'q':
+		return syscall.EAGAIN
 	}
 	return nil
 }
@@ -123,6 +132,12 @@ func c20model(script string) (processed, errs []string, terminated bool, sleeps 
 		case sym == 'P':
 			processed = append(processed, fmt.Sprintf("P%d", i))
 			errs = append(errs, fmt.Sprintf("process-%d", i))
+		case sym == 'p':
+			processed = append(processed, fmt.Sprintf("p%d", i))
+			errs = append(errs, io.ErrUnexpectedEOF.Error())
+		case sym == 'q':
+			processed = append(processed, fmt.Sprintf("q%d", i))
+			errs = append(errs, syscall.EAGAIN.Error())
 		case strings.IndexByte(c20Transient, sym) >= 0:
 		case sym == 'U':
 			errs = append(errs, fmt.Sprintf("unknown-%d", i))
@@ -280,14 +295,21 @@ func init() { drv.Register("c20", verifC20) }
 
 func verifC20(c *drv.Ctx) {
 	alpha, maxLen, maxLenD1 := "FPATtRUEBC", 5, 3
+	ext, extLen := "FPpqATtwaRUEBC", 4
 	if c.Thorough() {
 		alpha, maxLen, maxLenD1 = "FPATtRUEBCXYar", 5, 4
+		ext, extLen = "FPpqATtwarRUEBCXY", 4
 	}
-	c.R.Rule = fmt.Sprintf("every reachable read-outcome script of length <= %d over %q (terminal symbols only last) x {consumer drains to close, consumer stops on cancel}; "+
-		"each run through the real ReceivePackets under the scheduler: deviation bound 0 with the cancel event injected at every choice point for all scripts, bound 1 for scripts of length <= %d; "+
-		"non-trivial = script contains at least one frame or error symbol", maxLen, alpha, maxLenD1)
+	c.R.Rule = fmt.Sprintf("every reachable read-outcome script of length <= %d over %q and of length <= %d over the extended alphabet %q (terminal symbols only last; p, q = frames whose processing fails with io.ErrUnexpectedEOF / EAGAIN, w = EWOULDBLOCK wrapped with %%w, a = EAGAIN in an os.SyscallError) x {consumer drains to close, consumer stops on cancel}; "+
+		"each run through the real ReceivePackets under the scheduler, reads being scheduling points: deviation bound 0 with the cancel event injected at every choice point for all scripts, bound 1 for scripts of length <= %d; "+
+		"non-trivial = script contains at least one frame or error symbol", maxLen, alpha, extLen, ext, maxLenD1)
+	seenScript := map[string]bool{}
 	idx := 0
-	c20scripts(alpha, maxLen, func(script string) {
+	each := func(script string) {
+		if seenScript[script] {
+			return
+		}
+		seenScript[script] = true
 		for _, stop := range []bool{false, true} {
 			idx++
 			if !c.Mine(idx) || c.Expired() {
@@ -308,6 +330,8 @@ func verifC20(c *drv.Ctx) {
 				c.Sample(map[string]any{"script": script, "consumer_stops_on_cancel": stop, "bound": bound, "executions": r.Execs, "outcomes": r.Outcomes})
 			}
 		}
-	})
+	}
+	c20scripts(alpha, maxLen, each)
+	c20scripts(ext, extLen, each)
 	c.Set("scripts", idx/2)
 }
